@@ -20,7 +20,8 @@ Inductive handle := HTask (w : nat) | HChild (b s : nat).
 (** ghost counters (never read by the model's control flow): child polls, enqueues of a slot
     into a ready queue, and the three reasons for an enqueue: accepted pushes, child-waker
     invocations, re-arms after a merge item *)
-Record ghost := { gpolls : nat; genq : nat; gpush : nat; gwake : nat; gitems : nat }.
+Record ghost := { gpolls : nat; genq : nat; gpush : nat; gwake : nat; gitems : nat;
+                  gdone : nat (* polls of a child that had already given its final answer *) }.
 
 Record world := {
   blocks : list block;
@@ -66,15 +67,18 @@ Definition count_alloc (n : nat) (w : world) : world :=
      winj := winj w; regk := regk w; popk := popk w; nalloc := n + nalloc w; wghost := wghost w |}.
 
 Definition g_poll (w : world) : world :=
-  let g := wghost w in set_ghost {| gpolls := S (gpolls g); genq := genq g; gpush := gpush g; gwake := gwake g; gitems := gitems g |} w.
+  let g := wghost w in set_ghost {| gpolls := S (gpolls g); genq := genq g; gpush := gpush g; gwake := gwake g; gitems := gitems g; gdone := gdone g |} w.
 Definition g_enq (w : world) : world :=
-  let g := wghost w in set_ghost {| gpolls := gpolls g; genq := S (genq g); gpush := gpush g; gwake := gwake g; gitems := gitems g |} w.
+  let g := wghost w in set_ghost {| gpolls := gpolls g; genq := S (genq g); gpush := gpush g; gwake := gwake g; gitems := gitems g; gdone := gdone g |} w.
 Definition g_push (w : world) : world :=
-  let g := wghost w in set_ghost {| gpolls := gpolls g; genq := genq g; gpush := S (gpush g); gwake := gwake g; gitems := gitems g |} w.
+  let g := wghost w in set_ghost {| gpolls := gpolls g; genq := genq g; gpush := S (gpush g); gwake := gwake g; gitems := gitems g; gdone := gdone g |} w.
 Definition g_wake (w : world) : world :=
-  let g := wghost w in set_ghost {| gpolls := gpolls g; genq := genq g; gpush := gpush g; gwake := S (gwake g); gitems := gitems g |} w.
+  let g := wghost w in set_ghost {| gpolls := gpolls g; genq := genq g; gpush := gpush g; gwake := S (gwake g); gitems := gitems g; gdone := gdone g |} w.
 Definition g_item (w : world) : world :=
-  let g := wghost w in set_ghost {| gpolls := gpolls g; genq := genq g; gpush := gpush g; gwake := gwake g; gitems := S (gitems g) |} w.
+  let g := wghost w in set_ghost {| gpolls := gpolls g; genq := genq g; gpush := gpush g; gwake := gwake g; gitems := S (gitems g); gdone := gdone g |} w.
+
+Definition g_done (w : world) : world :=
+  let g := wghost w in set_ghost {| gpolls := gpolls g; genq := genq g; gpush := gpush g; gwake := gwake g; gitems := gitems g; gdone := S (gdone g) |} w.
 
 Definition get_blk (w : world) (b : nat) : option block := nth_error (blocks w) b.
 
@@ -209,7 +213,7 @@ Definition forced_inc (k : nat) (w : world) : bool :=
 
 Definition empty_world : world :=
   {| blocks := []; handles := []; log := []; winj := no_inj; regk := 0; popk := 0; nalloc := 0;
-     wghost := {| gpolls := 0; genq := 0; gpush := 0; gwake := 0; gitems := 0 |} |}.
+     wghost := {| gpolls := 0; genq := 0; gpush := 0; gwake := 0; gitems := 0; gdone := 0 |} |}.
 
 (** the crate wakes the task itself (budget exhausted / inconsistent queue) while polling
     the group with block [b] *)
